@@ -251,6 +251,25 @@ func suiteAlloc(args []string) {
 			}
 		}
 	}
+	// honest but LONG: one repeated field with tens of thousands of items (all lengths true): total allocation stays linear
+	for _, items := range []int{20000, 60000} {
+		if stopped {
+			break
+		}
+		names := make([]string, items)
+		for i := range names {
+			names[i] = "a"
+		}
+		req := kmip.Request{Header: kmip.RequestHeader{Version: kmip.ProtocolVersion{Major: 1, Minor: 4}, BatchCount: 1},
+			BatchItems: []kmip.RequestBatchItem{{Operation: kmip.OPERATION_GET_ATTRIBUTES, RequestPayload: kmip.GetAttributesRequest{UniqueIdentifier: "k", AttributeNames: names}}}}
+		_, b := implEncode(&req)
+		if b == nil {
+			continue
+		}
+		check("Request", b, fmt.Sprintf("valid request: one repeated field with %d items", items))
+		rep.Nontrivial++
+		rep.Distribution["long-repeated-field"]++
+	}
 	// honest but DEEP: a recursive user-defined type nested thousands of levels (library types nest ~7 levels): memory must
 	// stay linear in the input, not grow with depth x size
 	for _, depth := range []int{400, 1600} {
